@@ -10,6 +10,7 @@ require (
 	github.com/sirupsen/logrus v1.9.3
 	google.golang.org/grpc v1.57.1
 	google.golang.org/protobuf v1.34.1
+	sigs.k8s.io/yaml v1.3.0
 )
 
 require (
@@ -21,6 +22,7 @@ require (
 	github.com/tetratelabs/wazero v1.9.0 // indirect
 	golang.org/x/sys v0.21.0 // indirect
 	google.golang.org/genproto/googleapis/rpc v0.0.0-20230731190214-cbb8c96f2d6d // indirect
+	gopkg.in/yaml.v2 v2.4.0 // indirect
 )
 
 replace github.com/containerd/nri => /repo
